@@ -25,6 +25,7 @@ RULE = (
     "contracts from >=1 class; distinct = (shape, kind, class, truth vector)."
     ' Same-name program: distinct classes sharing module and qualified name (class factory called three times, name'
     ' bound again, dataclass(slots=True), hand-made copy) are each announced exactly once.'
+    ' The listed invariants of the event are evaluated by hand against an operation on an instance whose invariant does not hold (one falsy invariant at a time): the verdict equals that of the real operation.'
 )
 ASSUMPTIONS = ["the integrator recipe is the one of tests/test_for_integrators.py and the README"]
 
